@@ -2,6 +2,7 @@
 correspondence against gds21::GdsFloat64::{encode,decode}."""
 import json, struct
 from vlib import *
+from props import layerb
 
 OPS = {"dec": 1, "encdec": 2, "decenc": 3}
 
@@ -92,9 +93,17 @@ def evaluate(chk, cases, tag):
 
 def run(chk, replay=None):
     chk.proof_leg(["Gds/GdsRealCheck.vo"], "Properties/C15.v", ["Gds/GdsReal_proofs.v"], "Properties.C15")
+    # Layer B: the Z-level binary64 operations of the model are Flocq's IEEE-754 operations (Properties/C15B.v).
+    # Its theorems depend on the real-number axioms of the standard library; Properties/C15.v must stay closed.
+    layerb_ok = layerb.flocq_leg(chk, "Properties/C15B.v", "Properties.C15B")
     chk.assumptions += [
         "libm log2 is not modelled: theorem C15_encode_is_reference holds for EVERY integer estimate",
-        "float operations in decode/encode other than `u64 as f64` and `.round()` are exact (products/quotients by powers of two without under/overflow); validated by the correspondence run",
+        ("the Z-level float operations of the model (`u64 as f64` = rne53, `/ 2^56`, `* 16^e` exact, comparisons with powers of sixteen, `.round()`, `as u64`) "
+         "are IEEE-754 binary64 operations: theorems C15B_decode_is_flocq / C15B_encode_is_flocq / C15B_rne53_is_flocq_round against Flocq 4.1.0 "
+         "(axioms: the standard library's classical reals), and additionally validated by the correspondence run; "
+         "what remains assumed: `2f64.powi(56)` and `16f64.powi(e)` return the exact powers of two, Rust's f64 operators are IEEE-754 binary64 round-to-nearest-even")
+        if layerb_ok else
+        "float operations in decode/encode other than `u64 as f64` and `.round()` are exact (products/quotients by powers of two without under/overflow); validated by the correspondence run (layer B leg not green)",
         "NaN and infinities are outside the model",
     ]
     if not getattr(chk, "model_ok", False):
